@@ -268,3 +268,17 @@ func init() {
 		fmt.Println(cnt, len(w.evalScope()))
 	}
 }
+
+func init() {
+	debugHooks["callees"] = func(w *World) {
+		for _, fn := range w.AllFuncs {
+			if strings.Contains(fnName(fn), "parseSequence") || strings.Contains(fnName(fn), "parseStep") || strings.Contains(fnName(fn), "nested") {
+				var names []string
+				for _, c := range w.pkgCallees(fn) {
+					names = append(names, fnName(c))
+				}
+				fmt.Printf("%s guard=%v -> %v\n", fnName(fn), w.depthGuard(fn) != nil, names)
+			}
+		}
+	}
+}
